@@ -21,7 +21,7 @@ from mc import core
 LEVEL = "model_checking"
 RULE = (
     "every h x w map over the value alphabet x every threshold x two (samples,channels) packings, through the real "
-    "find_local_peaks_rough and find_local_peaks (refinement None and 'integral', patch 3 and 5); one evaluation = one "
+    "find_local_peaks_rough and find_local_peaks (refinement None and 'integral', patch 3, 4 and 5; thorough also 6); one evaluation = one "
     "(map, threshold, packing, function variant) comparison against the brute-force neighbour scan; states = distinct "
     "input maps; transitions = calls of the real functions (batched); a map is non-trivial when for some threshold it has "
     ">= 2 peaks, or a peak AND a cell above the threshold that is not a peak (the non-maximum suppression both keeps and "
@@ -473,19 +473,19 @@ def plan(tier):
 
     small = [(1, 1), (1, 2), (2, 1), (1, 3), (3, 1), (2, 2), (1, 4), (4, 1), (1, 5), (5, 1), (2, 3), (3, 2)]
     for h, w in small:
-        enum(h, w, ALPHA5, patches=(None, 3, 5))
+        enum(h, w, ALPHA5, patches=(None, 3, 4, 5))
     if tier == "quick":
         enum(3, 3, ALPHA4)
-        enum(3, 3, ALPHA3, patches=(3, 5))
-        enum(3, 3, ALPHA3, patches=(3, 5), embed=(5, 5, 1, 1), thrs=thr[1:3])
+        enum(3, 3, ALPHA3, patches=(3, 4, 5))
+        enum(3, 3, ALPHA3, patches=(3, 4, 5), embed=(5, 5, 1, 1), thrs=thr[1:3])
         enum(3, 3, ALPHA3, patches=(5,), embed=(7, 7, 2, 2), thrs=thr[1:3])
     else:
         enum(3, 3, ALPHA5, patches=(None, 3))
         enum(3, 3, ALPHA4, patches=(5,))
         enum(3, 4, ALPHA3)
         enum(4, 3, ALPHA3)
-        enum(4, 4, ALPHA2, patches=(None, 3, 5))
-        enum(3, 3, ALPHA4, patches=(3, 5), embed=(5, 5, 1, 1))
+        enum(4, 4, ALPHA2, patches=(None, 3, 4, 5))
+        enum(3, 3, ALPHA4, patches=(3, 4, 5, 6), embed=(5, 5, 1, 1))
         enum(3, 3, ALPHA3, patches=(3, 5), embed=(7, 7, 2, 2))
         enum(3, 3, ALPHA3, patches=(3, 5), embed=(5, 5, 0, 2))
     for H, W in ((5, 5), (7, 7), (5, 7)):
